@@ -208,6 +208,10 @@ func treeFromYAML(b []byte) ([]chordlang.Item, error) {
 
 // c04CLI: `crd text parse` must succeed exactly on sentences, print the tree, and fail cleanly otherwise.
 func c04CLI(e *Env, p *chordlang.SLR, text string) {
+	if cli.TooManyHangs() {
+		e.R.NotExhaustive("stopped feeding the binary after 12 reproducible hangs")
+		return
+	}
 	e.R.Eval(1)
 	rt, _, rLexErr := chordlang.Tokenize(text)
 	want := !rLexErr && p.Accepts(kindsOf(rt))
